@@ -400,6 +400,9 @@ Section Law.
   Lemma expect_dret {A} (a : A) f : expect (dret o a) f = f a.
   Proof. unfold dret, Detector.expect. simpl. ring. Qed.
 
+  Lemma expect_two {A} (a b : A) wa wb F : expect [(a, wa); (b, wb)] F = wa *' F a +' wb *' F b.
+  Proof. unfold Detector.expect. simpl. ring. Qed.
+
   Lemma expect_dscale {A} c (d : wdist A) f : expect (dscale o c d) f = c *' expect d f.
   Proof.
     induction d as [|[a w] d IH].
@@ -557,7 +560,7 @@ Section Law.
     unfold dark_state. revert k; induction s as [|n s IH]; intros k.
     - cbn [dark_modes_t map dprod]. rewrite expect_dret. reflexivity.
     - simpl dark_modes_t. simpl map. unfold state in *. rewrite expect_node, !IH, expect_dprod_cons.
-      unfold dark_mode, Detector.expect at 3. simpl. ring.
+      unfold dark_mode. rewrite expect_two. cbn [test_prob]. ring.
   Qed.
 
   (* skipped stages are point masses *)
@@ -579,7 +582,7 @@ Section Law.
   Proof.
     unfold dark_state. revert G; induction s as [|n s IH]; intros G.
     - cbn [map dprod]. apply expect_dret.
-    - simpl map. unfold state in *. rewrite expect_dprod_cons. unfold dark_mode, Detector.expect at 1. simpl. rewrite !IH. ring.
+    - simpl map. unfold state in *. rewrite expect_dprod_cons. unfold dark_mode. rewrite expect_two, !IH. ring.
   Qed.
 
   Lemma expect_kernel d s f :
@@ -610,11 +613,11 @@ Section Law.
       + rewrite law_eff_modes by assumption. apply expect_ext. intros t.
         destruct (klt o K0 (pdark d)) eqn:E2.
         * rewrite law_dark_modes. apply expect_ext. intros u. simpl. apply expect_dret.
-        * rewrite (H2 E2), dark_state_zero. simpl. apply expect_dret.
-      + rewrite (H1 E1), thin_state_one by assumption.
+        * rewrite (H2 eq_refl), dark_state_zero. simpl. apply expect_dret.
+      + rewrite (H1 eq_refl), thin_state_one by assumption.
         destruct (klt o K0 (pdark d)) eqn:E2.
         * rewrite law_dark_modes. apply expect_ext. intros u. simpl. apply expect_dret.
-        * rewrite (H2 E2), dark_state_zero. simpl. apply expect_dret.
+        * rewrite (H2 eq_refl), dark_state_zero. simpl. apply expect_dret.
   Qed.
 
   (* the indicator form: equal probability of every event *)
@@ -648,3 +651,379 @@ Section Law.
          (fun a => bind (accept h ps mind (fst a)) (fun r => Ok (r, snd a))).
   Proof. rewrite run_get_output_tree. reflexivity. Qed.
 End Law.
+
+(* ====================================================================== *)
+(* Part C : inverse-CDF sampling, over the rationals                       *)
+(* ====================================================================== *)
+From Coq Require Import QArith Lqa.
+
+Definition Qo : ops Q :=
+  mkOps Q 0%Q 1%Q Qplus Qmult Qminus Qopp Qinv (fun x => x) Qeq_bool Qle_bool inject_Z.
+
+Section ScanGeneric.
+  Context {K : Type} (o : ops K).
+
+  Lemma first_gt_shift cdf u i : first_gt o cdf u i = (i + first_gt o cdf u 0)%nat.
+  Proof.
+    revert i; induction cdf as [|c r IH]; intros i; simpl; [lia|].
+    destruct (klt o u c); [lia|]. rewrite (IH (S i)), (IH 1%nat). lia.
+  Qed.
+
+  Lemma first_gt_le cdf u : (first_gt o cdf u 0 <= length cdf)%nat.
+  Proof.
+    induction cdf as [|c r IH]; simpl; [lia|]. destruct (klt o u c); [lia|].
+    rewrite first_gt_shift. lia.
+  Qed.
+
+  (* the python scan of sample() returns the key at the numpy index, or the
+     last key when no entry exceeds u *)
+  Lemma scan_cd_first_gt {A} (cd : list (A * K)) u lst :
+    (first_gt o (map snd cd) u 0 < length cd)%nat ->
+    scan_cd o cd u lst = nth_error (map fst cd) (first_gt o (map snd cd) u 0).
+  Proof.
+    revert lst; induction cd as [|[a c] cd IH]; intros lst H; simpl in *; [lia|].
+    destruct (klt o u c); [reflexivity|].
+    rewrite first_gt_shift in H |- *. simpl. apply IH. lia.
+  Qed.
+
+  Lemma map_snd_combine {A B} (l : list A) (r : list B) :
+    length l = length r -> map snd (combine l r) = r.
+  Proof.
+    revert r; induction l as [|a l IH]; intros [|b r] H; simpl in *; try lia; [reflexivity|].
+    f_equal. apply IH. lia.
+  Qed.
+  Lemma map_fst_combine {A B} (l : list A) (r : list B) :
+    length l = length r -> map fst (combine l r) = l.
+  Proof.
+    revert r; induction l as [|a l IH]; intros [|b r] H; simpl in *; try lia; [reflexivity|].
+    f_equal. apply IH. lia.
+  Qed.
+  Lemma cumsum_from_length acc l : length (cumsum_from o acc l) = length l.
+  Proof. revert acc; induction l as [|p l IH]; intros acc; simpl; [reflexivity|]. rewrite IH. reflexivity. Qed.
+End ScanGeneric.
+
+Section InvCDF.
+  Local Open Scope Q_scope.
+
+  Definition Qsum (l : list Q) : Q := fold_right Qplus 0 l.
+  (* cumulative mass below index k *)
+  Definition cmass (ps : list Q) (k : nat) : Q := Qsum (firstn k ps).
+
+  Lemma klt_Q a b : klt Qo a b = true <-> a < b.
+  Proof.
+    unfold klt. simpl. rewrite negb_true_iff. split.
+    - intros H. apply Qnot_le_lt. intros Hle. apply Qle_bool_iff in Hle. congruence.
+    - intros H. destruct (Qle_bool b a) eqn:E; [|reflexivity]. apply Qle_bool_iff in E. lra.
+  Qed.
+  Lemma klt_Q_false a b : klt Qo a b = false <-> b <= a.
+  Proof.
+    split.
+    - intros H. destruct (Qlt_le_dec a b) as [Hlt|Hle]; [|assumption]. apply klt_Q in Hlt. congruence.
+    - intros H. destruct (klt Qo a b) eqn:E; [|reflexivity]. apply klt_Q in E. lra.
+  Qed.
+
+  Lemma first_gt_iff (cs : list Q) u k :
+    (k < length cs)%nat ->
+    (first_gt Qo cs u 0 = k <-> (forall j, (j < k)%nat -> nth j cs 0 <= u) /\ u < nth k cs 0).
+  Proof.
+    revert k; induction cs as [|c r IH]; intros k Hk; simpl in Hk; [lia|]. simpl first_gt.
+    destruct (klt Qo u c) eqn:E.
+    - apply klt_Q in E. split.
+      + intros <-. split; [intros j Hj; lia|exact E].
+      + intros [H1 H2]. destruct k as [|k]; [reflexivity|]. specialize (H1 0%nat ltac:(lia)). simpl in H1. lra.
+    - apply klt_Q_false in E. rewrite first_gt_shift. destruct k as [|k].
+      + split; [lia|]. intros [_ H2]. simpl in H2. lra.
+      + split.
+        * intros H. assert (H' : first_gt Qo r u 0 = k) by lia. apply IH in H' as [H1 H2]; [|lia].
+          split; [|exact H2]. intros [|j] Hj; simpl; [exact E|apply H1; lia].
+        * intros [H1 H2]. cut (first_gt Qo r u 0 = k); [lia|]. apply IH; [lia|]. split; [|exact H2].
+          intros j Hj. apply (H1 (S j)). lia.
+  Qed.
+
+  Lemma first_gt_none (cs : list Q) u :
+    first_gt Qo cs u 0 = length cs -> forall j, (j < length cs)%nat -> nth j cs 0 <= u.
+  Proof.
+    induction cs as [|c r IH]; simpl; intros H j Hj; [lia|].
+    destruct (klt Qo u c) eqn:E; [lia|]. apply klt_Q_false in E. rewrite first_gt_shift in H.
+    destruct j as [|j]; [exact E|]. apply IH; lia.
+  Qed.
+
+  Lemma Qsum_nonneg l : Forall (fun p => 0 <= p) l -> 0 <= Qsum l.
+  Proof. induction 1 as [|p l Hp Hl IH]; simpl; lra. Qed.
+
+  Lemma Forall_firstn' {A} (P : A -> Prop) k l : Forall P l -> Forall P (firstn k l).
+  Proof. intros H. revert k; induction H; intros [|k]; simpl; constructor; auto. Qed.
+
+  Lemma cmass_mono ps j k :
+    Forall (fun p => 0 <= p) ps -> (j <= k)%nat -> cmass ps j <= cmass ps k.
+  Proof.
+    unfold cmass. intros Hps. revert j k; induction Hps as [|p ps Hp Hps IH]; intros j k Hjk.
+    - rewrite !firstn_nil. lra.
+    - destruct j as [|j].
+      + simpl firstn at 1. simpl Qsum at 1. apply Qsum_nonneg. apply Forall_firstn'. constructor; assumption.
+      + destruct k as [|k]; [lia|]. simpl. specialize (IH j k ltac:(lia)). lra.
+  Qed.
+
+  Lemma cmass_all ps : cmass ps (length ps) == Qsum ps.
+  Proof. unfold cmass. rewrite firstn_all. reflexivity. Qed.
+
+  Lemma cmass_S ps k : (k < length ps)%nat -> cmass ps (S k) == cmass ps k + nth k ps 0.
+  Proof.
+    unfold cmass. revert k; induction ps as [|p ps IH]; intros k Hk; simpl in Hk; [lia|].
+    destruct k as [|k]; [simpl; lra|]. specialize (IH k ltac:(lia)). simpl in *. lra.
+  Qed.
+
+  Lemma div_le a b t : 0 < t -> a <= b -> a / t <= b / t.
+  Proof. intros Ht H. apply Qmult_le_compat_r; [assumption|]. apply Qinv_le_0_compat. lra. Qed.
+
+  (* A list of CDF values that IS the normalised cumulative mass *)
+  Definition is_cdf_of (ps cs : list Q) : Prop :=
+    length cs = length ps /\
+    forall j, (j < length ps)%nat -> nth j cs 0 == cmass ps (S j) / Qsum ps.
+
+  (* the set of u in [0,1) sent to index k is exactly the interval
+     [cmass k / total, cmass (k+1) / total), whose length is p_k / total *)
+  Theorem inverse_cdf_interval ps cs u k :
+    Forall (fun p => 0 <= p) ps -> 0 < Qsum ps -> is_cdf_of ps cs ->
+    0 <= u -> (k < length ps)%nat ->
+    (first_gt Qo cs u 0 = k <-> cmass ps k / Qsum ps <= u /\ u < cmass ps (S k) / Qsum ps).
+  Proof.
+    intros Hps Ht [Hl Hc] Hu Hk. rewrite first_gt_iff by lia. split.
+    - intros [H1 H2]. split.
+      + destruct k as [|k].
+        * unfold cmass. simpl. unfold Qdiv. lra.
+        * rewrite <- Hc by lia. apply H1. lia.
+      + rewrite <- Hc by lia. exact H2.
+    - intros [H1 H2]. split.
+      + intros j Hj. rewrite Hc by lia. eapply Qle_trans; [|exact H1].
+        apply div_le; [assumption|]. apply cmass_mono; [assumption|lia].
+      + rewrite Hc by lia. exact H2.
+  Qed.
+
+  Lemma interval_length ps k :
+    (k < length ps)%nat -> 0 < Qsum ps ->
+    cmass ps (S k) / Qsum ps - cmass ps k / Qsum ps == nth k ps 0 / Qsum ps.
+  Proof. intros Hk Ht. rewrite cmass_S by assumption. field. lra. Qed.
+
+  (* every u in [0,1) is sent to some index: the scan never falls off the end *)
+  Theorem inverse_cdf_total ps cs u :
+    Forall (fun p => 0 <= p) ps -> 0 < Qsum ps -> is_cdf_of ps cs -> u < 1 ->
+    (first_gt Qo cs u 0 < length ps)%nat.
+  Proof.
+    intros Hps Ht [Hl Hc] Hu.
+    pose proof (first_gt_le Qo cs u) as Hle. rewrite Hl in Hle.
+    destruct (Nat.eq_dec (first_gt Qo cs u 0) (length ps)) as [E|]; [|lia]. exfalso.
+    rewrite <- Hl in E. pose proof (first_gt_none cs u E) as Hn. rewrite Hl in Hn.
+    destruct (length ps) as [|n] eqn:En.
+    - destruct ps; [|discriminate]. simpl in Ht. lra.
+    - specialize (Hn n ltac:(lia)). rewrite Hc in Hn by lia. rewrite <- En, cmass_all in Hn.
+      assert (Qsum ps / Qsum ps == 1) by (field; lra). lra.
+  Qed.
+
+  (* ---- the model's cumulative sums are the cumulative mass ---- *)
+  Lemma cumsum_from_nth acc l k :
+    (k < length l)%nat -> nth k (cumsum_from Qo acc l) 0 == acc + cmass l (S k).
+  Proof.
+    unfold cmass. revert acc k; induction l as [|p l IH]; intros acc k Hk; simpl in Hk; [lia|].
+    destruct k as [|k].
+    - simpl. lra.
+    - change (nth (S k) (cumsum_from Qo acc (p :: l)) 0) with (nth k (cumsum_from Qo (acc + p) l) 0).
+      rewrite IH by lia. simpl. lra.
+  Qed.
+
+  Lemma cumsum_from_last acc l : l <> [] -> last (cumsum_from Qo acc l) 0 == acc + Qsum l.
+  Proof.
+    revert acc; induction l as [|p l IH]; intros acc Hl; [congruence|].
+    destruct l as [|q l].
+    - simpl. lra.
+    - change (last (cumsum_from Qo acc (p :: q :: l)) 0) with (last (cumsum_from Qo (acc + p) (q :: l)) 0).
+      rewrite IH by discriminate. simpl. lra.
+  Qed.
+
+  Lemma ksum_Qsum l : ksum Qo l == Qsum l.
+  Proof.
+    unfold ksum. simpl k0. assert (G : forall acc, fold_left (kadd Qo) l acc == acc + Qsum l).
+    { induction l as [|p l IH]; intros acc; simpl; [lra|]. rewrite IH. lra. }
+    rewrite G. lra.
+  Qed.
+
+  Lemma nth_map_div (c : list Q) t j :
+    (j < length c)%nat -> nth j (map (fun x => kdiv Qo x t) c) 0 = nth j c 0 * / t.
+  Proof.
+    intros Hj. transitivity (nth j (map (fun x => kdiv Qo x t) c) ((fun x => kdiv Qo x t) 0)).
+    - apply nth_indep. rewrite map_length. assumption.
+    - exact (map_nth (fun x => kdiv Qo x t) c 0 j).
+  Qed.
+
+  (* numpy: cdf = cumsum(p); cdf /= cdf[-1] *)
+  Lemma np_cdf_is_cdf ps : 0 < Qsum ps -> is_cdf_of ps (np_cdf Qo ps).
+  Proof.
+    intros Ht. assert (Hne : ps <> []) by (intros ->; simpl in Ht; lra).
+    unfold is_cdf_of, np_cdf. split.
+    - rewrite map_length. apply cumsum_from_length.
+    - intros j Hj. rewrite nth_map_div by (unfold cumsum; rewrite cumsum_from_length; assumption).
+      unfold cumsum. rewrite cumsum_from_nth by assumption. rewrite cumsum_from_last by assumption.
+      simpl k0. unfold Qdiv. assert (0 + Qsum ps == Qsum ps) as -> by lra.
+      assert (0 + cmass ps (S j) == cmass ps (S j)) as -> by lra. reflexivity.
+  Qed.
+
+  (* Sampler._convert_to_continuous: running sum / sum(values) *)
+  Lemma ctc_is_cdf (pd : @dist Q) :
+    is_cdf_of (dvals pd) (map snd (convert_to_continuous Qo pd)) /\
+    map fst (convert_to_continuous Qo pd) = dkeys pd.
+  Proof.
+    unfold convert_to_continuous.
+    assert (Hlen : length (dkeys pd) = length (map (fun c => kdiv Qo c (ksum Qo (dvals pd))) (cumsum Qo (dvals pd)))).
+    { unfold cumsum. rewrite map_length, cumsum_from_length. unfold dkeys, dvals. rewrite !map_length. reflexivity. }
+    rewrite map_snd_combine, map_fst_combine by assumption. split; [|reflexivity].
+    split.
+    - unfold cumsum. rewrite map_length. apply cumsum_from_length.
+    - intros j Hj. rewrite nth_map_div by (unfold cumsum; rewrite cumsum_from_length; assumption).
+      unfold cumsum. rewrite cumsum_from_nth by assumption. rewrite ksum_Qsum.
+      simpl k0. unfold Qdiv. assert (0 + cmass (dvals pd) (S j) == cmass (dvals pd) (S j)) as -> by lra. reflexivity.
+  Qed.
+
+  Definition valid_probs (ps : list Q) : Prop := Forall (fun p => 0 <= p) ps /\ 0 < Qsum ps.
+
+  (* numpy Generator.choice *)
+  Theorem inverse_cdf_choice ps u :
+    valid_probs ps -> 0 <= u < 1 ->
+    let k := first_gt Qo (np_cdf Qo ps) u 0 in
+    (k < length ps)%nat /\
+    forall j, (j < length ps)%nat ->
+      (k = j <-> cmass ps j / Qsum ps <= u /\ u < cmass ps (S j) / Qsum ps).
+  Proof.
+    intros [Hp Ht] [Hu0 Hu1]. simpl. split.
+    - apply inverse_cdf_total; auto using np_cdf_is_cdf.
+    - intros j Hj. apply inverse_cdf_interval; auto using np_cdf_is_cdf.
+  Qed.
+
+  (* the python scan of Sampler.sample() *)
+  Theorem inverse_cdf_scan (pd : @dist Q) u :
+    valid_probs (dvals pd) -> 0 <= u < 1 ->
+    exists k, (k < length pd)%nat /\
+      scan_cd Qo (convert_to_continuous Qo pd) u None = nth_error (dkeys pd) k /\
+      forall j, (j < length pd)%nat ->
+        (k = j <-> cmass (dvals pd) j / Qsum (dvals pd) <= u /\ u < cmass (dvals pd) (S j) / Qsum (dvals pd)).
+  Proof.
+    intros [Hp Ht] [Hu0 Hu1]. destruct (ctc_is_cdf pd) as [Hc Hk].
+    assert (Hlen : length (dvals pd) = length pd) by (unfold dvals; apply map_length).
+    exists (first_gt Qo (map snd (convert_to_continuous Qo pd)) u 0).
+    assert (Htot : (first_gt Qo (map snd (convert_to_continuous Qo pd)) u 0 < length pd)%nat).
+    { rewrite <- Hlen. apply inverse_cdf_total; assumption. }
+    split; [assumption|]. split.
+    - rewrite scan_cd_first_gt; [rewrite Hk; reflexivity|].
+      replace (length (convert_to_continuous Qo pd)) with (length pd); [assumption|].
+      rewrite <- (map_length fst (convert_to_continuous Qo pd)), Hk. unfold dkeys. rewrite map_length. reflexivity.
+    - intros j Hj. apply inverse_cdf_interval; auto. lia.
+  Qed.
+End InvCDF.
+
+(* ====================================================================== *)
+(* Sampler.sample() and heralds (finding N7); PostSelection meaning;       *)
+(* instances used by the Examples                                          *)
+(* ====================================================================== *)
+Section SampleHeralds.
+  Local Open Scope Q_scope.
+
+  (* a perfect detector, a herald of 1 photon on mode 0, a two-entry
+     distribution: u = 3/4 selects |0,0,2>, returned as is *)
+  Definition n7_det : @detector Q := mkDet 1 0 true.
+  Definition n7_heralds : hdict := [(0%nat, 1%Z)].
+  Definition n7_dist : @dist Q := [([1; 1; 0]%Z, 1 # 2); ([0; 0; 2]%Z, 1 # 2)].
+
+  Lemma sample_heralds_refuted :
+    exists (d : @detector Q) (h : hdict) (pd : @dist Q) (us : list Q) (s : state) (rest : list Q),
+      h <> [] /\ valid_probs (dvals pd) /\ Forall (fun u => 0 <= u < 1) us /\
+      sampler_sample Qo d pd us = Ok (s, rest) /\
+      herald_check h s = Ok false /\                   (* the herald is violated *)
+      length s = length (fst (hd ([], 0) pd)).          (* and the herald mode is still there *)
+  Proof.
+    exists n7_det, n7_heralds, n7_dist, [3 # 4], [0; 0; 2]%Z, [].
+    split; [discriminate|]. split.
+    - split; [repeat constructor; discriminate|reflexivity].
+    - split; [repeat constructor; discriminate|]. vm_compute. repeat split.
+  Qed.
+End SampleHeralds.
+
+Section SamplePartial.
+  Context {K : Type} (o : ops K).
+  (* without heralds sample() is right: the detected version of a state of the distribution *)
+  Lemma sample_heralds_partial (d : @detector K) (h : hdict) pd us s rest :
+    h = [] ->
+    sampler_sample o d pd us = Ok (s, rest) ->
+    (exists s0 us1, In s0 (dkeys pd) /\ get_output o d s0 us1 = Ok (s, rest)) /\
+    herald_check h s = Ok true /\ strip_heralds h s = Ok s.
+  Proof.
+    intros -> H. split; [eapply sampler_sample_spec; exact H|]. split; reflexivity.
+  Qed.
+End SamplePartial.
+
+(* what a PostSelection object accepts *)
+Lemma sum_modes_spec ms (s : state) t :
+  sum_modes ms s = Ok t ->
+  Forall (fun m => (m < length s)%nat) ms /\ t = fold_right (fun m acc => (nth m s 0 + acc)%Z) 0%Z ms.
+Proof.
+  revert t; induction ms as [|m ms IH]; intros t H; simpl in H.
+  - injection H as <-. split; [constructor|reflexivity].
+  - inv_bind H. inv_bind H. injection H as <-. apply st_getitem_nat in E as [Hlt <-].
+    destruct (IH _ eq_refl) as [Hf ->]. split; [constructor; assumption|reflexivity].
+Qed.
+
+Lemma rules_validate_true rs s :
+  rules_validate rs s = Ok true ->
+  Forall (fun r => exists t, sum_modes (r_modes r) s = Ok t /\ In t (r_nph r)) rs.
+Proof.
+  induction rs as [|r rs IH]; simpl; intros H; [constructor|].
+  inv_bind H. destruct b; [|discriminate]. constructor; [|apply IH; assumption].
+  unfold rule_validate in E. inv_bind E. injection E as E. exists z. split; [reflexivity|].
+  apply existsb_exists in E as (x & Hx & Ex). apply Z.eqb_eq in Ex. subst x. assumption.
+Qed.
+
+(* a failed PostSelection.add leaves the object unchanged; a successful one appends exactly one rule *)
+Lemma ps_add_spec p modes nph q :
+  ps_add p modes nph = Ok q ->
+  Forall (fun v => 0 <= v)%Z modes /\ Forall (fun v => 0 <= v)%Z nph /\
+  ps_rules q = ps_rules p ++ [mkRule (map Z.to_nat modes) nph] /\ ps_multi q = ps_multi p.
+Proof.
+  unfold ps_add. intros H.
+  destruct (existsb (fun v => v <? 0)%Z modes) eqn:E1; [discriminate|].
+  destruct (existsb (fun v => v <? 0)%Z nph) eqn:E2; [discriminate|].
+  destruct (negb (ps_multi p) && _); [discriminate|]. injection H as <-. simpl.
+  assert (G : forall l, existsb (fun v => v <? 0)%Z l = false -> Forall (fun v => 0 <= v)%Z l).
+  { intros l El. apply Forall_forall. intros x Hx.
+    destruct (x <? 0)%Z eqn:Ex; [|apply Z.ltb_ge in Ex; assumption].
+    assert (existsb (fun v => v <? 0)%Z l = true) by (apply existsb_exists; exists x; auto). congruence. }
+  auto.
+Qed.
+
+(* ---- the reals as an instance (shows det_valid is satisfiable with 0 < eta, p_dark < 1) ---- *)
+From Coq Require Import Reals Lra RealField.
+
+Definition Ro : ops R :=
+  mkOps R 0%R 1%R Rplus Rmult Rminus Ropp Rinv (fun x => x)
+        (fun a b => if Req_EM_T a b then true else false)
+        (fun a b => if Rle_dec a b then true else false) IZR.
+
+Global Instance R_star : StarRing Ro.
+Proof. constructor; simpl; intros; try reflexivity. exact RTheory. Qed.
+
+Lemma det_valid_R_example : det_valid (o:=Ro) (mkDet (1 / 2)%R (1 / 4)%R false).
+Proof.
+  unfold det_valid, klt. simpl. repeat split; intros H.
+  - destruct (Rle_dec 1 (1 / 2)); [lra|discriminate].
+  - destruct (Rle_dec (1 / 4) 0); [lra|discriminate].
+  - destruct (Req_EM_T (1 / 2) 1); [lra|discriminate].
+  - destruct (Req_EM_T (1 / 4) 0); [lra|discriminate].
+Qed.
+
+(* every detector the Detector setters accept (0 <= efficiency <= 1, 0 <= p_dark <= 1) is valid *)
+Lemma det_valid_R (eta pd : R) pc :
+  (0 <= eta <= 1)%R -> (0 <= pd <= 1)%R -> det_valid (o:=Ro) (mkDet eta pd pc).
+Proof.
+  intros He Hp. unfold det_valid, klt. simpl. repeat split; intros H.
+  - destruct (Rle_dec 1 eta); [lra|discriminate].
+  - destruct (Rle_dec pd 0); [lra|discriminate].
+  - destruct (Req_EM_T eta 1); [assumption|discriminate].
+  - destruct (Req_EM_T pd 0); [assumption|discriminate].
+Qed.
